@@ -1545,7 +1545,10 @@ Pointset_Powerset<PSET>::BHZ03_widening_assign(const Pointset_Powerset& y,
     widen_fun(ph, y_hull);
     // Compute the difference between `ph' and `bgp99_heuristics_hull'.
     ph.difference_assign(bgp99_heuristics_hull);
-    x.add_disjunct(ph);
+    // The new disjunct complements `bgp99_heuristics' (not `x', whose
+    // hull may be smaller): the hull of the result is the widened hull.
+    bgp99_heuristics.add_disjunct(ph);
+    swap(x, bgp99_heuristics);
     return;
   }
 
